@@ -767,6 +767,17 @@ func RunFrozen(c *Ctx) {
 		if len(chain) == 0 {
 			continue
 		}
+		// a store through a local pointer defined once as &x.f... writes x.f... (p := &o.config.DeviceAuthorization; p.F = v)
+		if id, ok := base.(*ast.Ident); ok {
+			if v, _ := info.Uses[id].(*types.Var); v != nil && !v.IsField() {
+				if target := addressOfDef(fi, v); target != nil {
+					b2, c2 := lhsBase(target)
+					if len(c2) > 0 {
+						base, chain = b2, append(chain, c2...)
+					}
+				}
+			}
+		}
 		// the innermost selector on the base decides which object is written
 		first := chain[len(chain)-1]
 		sel, ok := first.(*ast.SelectorExpr)
@@ -1244,4 +1255,40 @@ func calledOnlyDuringConstruction(c *Ctx, h *FuncInfo, constructors []string, de
 		})
 	}
 	return n > 0 && good
+}
+
+// addressOfDef: for a local pointer variable with exactly one assignment of the form `v := &expr` / `v = &expr` in the
+// enclosing declaration, the expression whose address it holds.
+func addressOfDef(fi *FuncInfo, v *types.Var) ast.Expr {
+	root := fi.Root()
+	if root.Body == nil {
+		return nil
+	}
+	info := fi.Pkg.TypesInfo
+	var target ast.Expr
+	n := 0
+	ast.Inspect(root.Body, func(nd ast.Node) bool {
+		as, ok := nd.(*ast.AssignStmt)
+		if !ok || len(as.Lhs) != len(as.Rhs) {
+			return true
+		}
+		for i, l := range as.Lhs {
+			id, ok := unparen(l).(*ast.Ident)
+			if !ok || (info.Defs[id] != v && info.Uses[id] != v) {
+				continue
+			}
+			n++
+			if u, ok := unparen(as.Rhs[i]).(*ast.UnaryExpr); ok && u.Op == token.AND {
+				target = u.X
+			} else {
+				target = nil
+				n += 2
+			}
+		}
+		return true
+	})
+	if n != 1 {
+		return nil
+	}
+	return target
 }
